@@ -104,9 +104,12 @@ let handle_x c i (opl : string) (res : string) : bool =
             stat "nnf_wf_files" 1;
             let printed = if vo then Model.print_nnf_vo p else Model.print_nnf p in
             if not (Model.wf_nnf_b ca p) then bad "corr" "generated NNF problem is not well-formed (wf_nnf_b)"
+            else if vo && not (Model.wf_vars_b p.Model.rp_vars) then bad "corr" "generated variable set is not well-formed (wf_vars_b)"
             else if hex_of_bytes printed <> hexs then bad "corr" "file is not the model's print of its parse"
             else false
           end
+          else if wf && (vo || ct) && not (Model.wf_vars_b p.Model.rp_vars) then
+            bad "corr" "generated variable set is not well-formed (wf_vars_b)"
           else (
             if typ = "satwf" then stat "sat_wf_files" 1;
             if typ = "cnftwf" then stat "cnf_tree_wf_files" 1;
@@ -215,6 +218,11 @@ let gen_varset (nv : int) : Model.varset =
       in
       { Model.vs_len = n_of_int nv; vs_order = Model.flatten t; vs_tree = Some t; vs_names = names }
 
+let gen_varset (nv : int) : Model.varset =
+  let vs = gen_varset nv in
+  if not (Model.wf_vars_b vs) then failwith "genq: generated variable set is not well-formed";
+  vs
+
 let plain_varset nv = { Model.vs_len = n_of_int nv; vs_order = []; vs_tree = None; vs_names = [] }
 
 let gen_nnf (k : int) : unit =
@@ -288,6 +296,7 @@ let gen_cnft (k : int) : unit =
   (* leaves: every clause number at least once, some twice *)
   let leaves = shuffle (List.init nc (fun i -> i) @ List.filter (fun _ -> chance 1 4) (List.init nc (fun i -> i))) in
   let t = gen_tree leaves 0 in
+  if not (Model.tree_top_ok_b false false t) then failwith "genq: generated clause tree is not well-formed";
   let mask = 2 lor below 8 in
   let body = Model.print_cnf (n_of_int nv) clauses in
   let file = Model.print_dimacs_vo (gen_varset nv) (Some t) body in
